@@ -93,9 +93,13 @@ class Repeat(Expression):
 
     def parse(self, state: ParserState, pairs: list[Pair]) -> bool:
         children: list[Pair] = []
+        first = True
 
         while True:
             state.checkpoint()
+            if not first:
+                # Trivia between iterations is given back if no iteration follows.
+                state.parse_trivia(children)
             matched = self.expression.parse(state, children)
 
             if not matched:
@@ -105,7 +109,7 @@ class Repeat(Expression):
             state.ok()
             pairs.extend(children)
             children.clear()
-            state.parse_trivia(children)
+            first = False
 
         # Always succeed.
         return True
